@@ -19,7 +19,7 @@
  * *_stack functions), but in malloc'ed memory, so no collector is involved.
  *
  * Transcript (one line):
- *   len=<n>|E:<exn>;leaf=<v>,..[/<v>,..];fwd=<v>,<v>,..;bwd=<v>,..;get=<v>,..|-;sl=<start>:<stop>:<step>,..;tab=<slot>,..
+ *   len=<n>|E:<exn>;leaf=<v>,..[/<v>,..];fwd=<v>,<v>,..;bwd=<v>,..;get=<v>,..|-;gx=<v>,..|-;sl=<start>:<stop>:<step>,..;tab=<slot>,..
  *   leaf = forward walk of every Table/Tree leaf of the expression on its own (prefix order, "/" separated)
  *   v = integer or (v v ..) for a Tuple; walks are cut off (",RUNAWAY") after 2*len+4 steps
  *   (len capped; if len is not available: 2*(total base size)+4); an exception ends a section
@@ -272,6 +272,17 @@ static void one_case(char* line) {
     try {
       for (i = 0; i < n && i < 5000; i++) { if (i) P(","); show_val(get(x, $I(i)), 0); }
     } catch (ex) { P("%sE:%s", i ? "," : "", exn_name(ex)); }
+  } else P("-");
+  fflush(OUT);
+  /* Range only: get at -1, -len, -len-1, len, INT64_MAX, INT64_MIN (negative keys count from the end,
+     everything outside [-len, len) must raise IndexOutOfBoundsError) */
+  P(";gx=");
+  if (e->kind == K_RANGE && n >= 0) {
+    int64_t keys[6]; keys[0] = -1; keys[1] = -n; keys[2] = -n - 1; keys[3] = n; keys[4] = INT64_MAX; keys[5] = INT64_MIN;
+    for (volatile int j = 0; j < 6; j++) {
+      if (j) P(",");
+      try { show_val(get(x, $I(keys[j])), 0); } catch (ex) { P("E:%s", exn_name(ex)); }
+    }
   } else P("-");
   fflush(OUT);
   P(";sl=");
